@@ -1124,7 +1124,14 @@ def run_ins_real(ctx, cfg, tmp):
     for sn, outl in zip(exp_rows, ctx.model(lines)):
         d = parse_crit(outl)
         e = expected_from_exact(d, (sn["prev_logZ"] - sn["shift"]) if sn["prev_logZ"] is not None else 0.0, sn["it"])
-        bad = [k for k in CANON if not (k == "ratio_ns" and not len(sn["nested"])) and not close(sn["attrs"][k], e[k], 1e-8)]
+        # the model's quotient live/nested is a FIELD division (x / 0 = 0): when every nested sample has weight zero (a likelihood
+        # that is -inf on part of the prior: all discarded samples at L = 0) the quotient is outside the model's domain and the
+        # logarithms decide: log(live) - log(0) = +inf (NaN when the live evidence is zero as well) — false alarm at VERIF_SEED=52
+        wsum = lambda idx: float(np.exp((sn["logL"] + sn["logW"])[idx] - sn["shift"]).sum()) if len(idx) else 0.0   # noqa
+        if len(sn["nested"]) and wsum(sn["nested"]) == 0.0:
+            e["ratio_ns"] = math.inf if wsum(sn["live"]) > 0.0 else math.nan
+        bad = [k for k in CANON if not (k == "ratio_ns" and not len(sn["nested"])) and not close(sn["attrs"][k], e[k], 1e-8)
+               and not (k == "ratio_ns" and math.isnan(e[k]) and math.isnan(sn["attrs"][k]))]
         if bad:
             ctx.disagree("criteria on a real run: exact model differs from the reported values on " + ",".join(bad),
                          {"iteration": sn["it"], "impl": sn["attrs"], "model": {k: e[k] for k in CANON}, "case": c})
